@@ -184,7 +184,7 @@ PROPS['C20'] = dict(
     rule='evaluations = calculateTime calls checked. Non-trivial = distinct tuples (every tuple exercises the invariants); pairs with delta in {1, 10, large} counted as classes.',
     assumptions=[],
     quick=dict(cases=3000, shards=16, scale=3, gates={'c20:tiny_time': 1000, 'c20:movestogo_1': 500, 'c20:pair_delta_1': 5000}, min_nontrivial=100000),
-    thorough=dict(cases=60000, shards=16, scale=3, min_nontrivial=5000000),
+    thorough=dict(cases=60000, shards=16, scale=3, min_nontrivial=3000000),
 )
 
 PROPS['C13'] = dict(
